@@ -172,7 +172,7 @@ func checkMain(args []string) {
 	}
 	lemObs := proveLemmas(w, lemSet)
 	all = append(all, lemObs...)
-	solveAll(all, dir, secs, tier == "thorough", 6)
+	solveAll(all, dir, secs, tier == "thorough", 10)
 
 	// ---- verdicts ----
 	violations := 0
@@ -195,10 +195,20 @@ func checkMain(args []string) {
 			failedFn[o.Func] = true
 		}
 	}
+	status := map[string]string{}
+	for _, o := range all {
+		status[o.Name] = o.Status
+	}
 	for _, o := range all {
 		names[o.Name] = true
 		if o.Canary {
+			if strings.Contains(o.Name, "#canary.before.") {
+				continue // only consulted for its paired after-canary
+			}
 			nCanary++
+			if o.Status == "unsat" && strings.Contains(o.Name, "#canary.after.") && status[strings.Replace(o.Name, "#canary.after.", "#canary.before.", 1)] == "unsat" {
+				continue // the call site itself is unreachable (dead code): the contract is not the cause
+			}
 			if o.Status == "unsat" && !failedFn[o.Func] {
 				// (code after a failed assertion is vacuously unreachable in the encoding: not an engine fault)
 				engineError("vacuity: reachability canary %s is unsat (contradictory assumptions)", o.Name)
